@@ -54,7 +54,20 @@ context middleware, inside out. -/
 theorem proxy_passthrough :
     proxyFlushImmediate = true ∧ transportNoCompress = true ∧
     lbWriterMethods = ["Flush", "Hijack", "Unwrap", "WriteHeader"] ∧ lbWriterForwards = true ∧
-    handlerOrder = ["lb", "BuildChain", "RequestContextMiddleware"] := by decide
+    handlerOrder = ["lb", "BuildChain", "RequestContextMiddleware", "withHandlerTimeout"] := by decide
+
+/-- **C03: every timeout is set, on every construction path.** The backend transport's dial,
+response-header, idle, TLS-handshake and expect-continue timeouts and the front server's read,
+write and idle timeouts are each given a value that cannot be zero (a variable guarded by
+`if v == 0 { v = default }`, or a non-zero constant), and the end-to-end handler timeout is
+applied around the whole chain with a defaulted value. -/
+theorem timeouts_set :
+    (timeoutFields.map (fun t => (t.1, t.2.1))) =
+      [("AddBackend", "http.Transport.ExpectContinueTimeout"), ("AddBackend", "http.Transport.IdleConnTimeout"),
+       ("AddBackend", "http.Transport.ResponseHeaderTimeout"), ("AddBackend", "http.Transport.TLSHandshakeTimeout"),
+       ("AddBackend", "net.Dialer.Timeout"), ("createHTTPServer", "http.Server.IdleTimeout"),
+       ("createHTTPServer", "http.Server.ReadTimeout"), ("createHTTPServer", "http.Server.WriteTimeout")] ∧
+    timeoutFields.all (fun t => t.2.2 == "ok") = true ∧ handlerTimeoutApplied = true := by decide
 
 theorem log_enums_eq : (∀ s ∈ logLevels, s ∈ Cfg.logLevels) ∧ (∀ s ∈ Cfg.logLevels, s ∈ logLevels) ∧
     (∀ s ∈ logFormats, s ∈ Cfg.logFormats) ∧ (∀ s ∈ Cfg.logFormats, s ∈ logFormats) := by decide
